@@ -61,6 +61,10 @@ var kindPass = map[string]bool{
 	"panic-expected-wrong":             false,
 	"panic-expected-absent":            false,
 	"trap-expected-panic":              false,
+	// the declared output is produced, but the function then does not return normally
+	"trap-after-matching-output":        false,
+	"panic-after-matching-output":       false,
+	"assert-fail-after-matching-output": false,
 }
 
 // two-stage draw (rapid favours small indices): a group, then a kind inside it
@@ -70,11 +74,13 @@ var kindGroups = [][]string{
 	{"silent-pass", "assert-pass"},
 	{"silent-pass", "output-match"},
 	{"panic-unexpected", "trap-unexpected", "assert-fail", "assert-fail-msg"},
+	{"trap-after-matching-output", "panic-after-matching-output", "assert-fail-after-matching-output"},
 }
 
 var passKinds = []string{"panic-expected-match", "panic-expected-match-after-print", "output-match", "silent-pass", "assert-pass"}
 var failKinds = []string{"panic-expected-longer-message", "panic-expected-wrong", "panic-expected-absent", "trap-expected-panic",
-	"output-wrong-line", "output-extra-line", "output-missing-line", "panic-unexpected", "trap-unexpected", "assert-fail", "assert-fail-msg"}
+	"output-wrong-line", "output-extra-line", "output-missing-line", "panic-unexpected", "trap-unexpected", "assert-fail", "assert-fail-msg",
+	"trap-after-matching-output", "panic-after-matching-output", "assert-fail-after-matching-output"}
 
 // excluded lists kinds switched off because they hit a listed known finding.
 func excluded(kind string) (string, bool) {
@@ -190,6 +196,21 @@ func genFunc(t *rapid.T, s syn, kind, name, id string) *mini.Unit {
 	case "panic-expected-absent":
 		o.Site = normal
 		o.TailFn = func(u *mini.Unit) []string { return outputComment(s, native, "Output(panic):", []string{msg}) }
+	case "trap-after-matching-output", "panic-after-matching-output", "assert-fail-after-matching-output":
+		var abort string
+		switch kind {
+		case "trap-after-matching-output":
+			abort = fmt.Sprintf("%s(100 / (sel%s - 2))", println_, id)
+		case "panic-after-matching-output":
+			abort = fmt.Sprintf("%s(%q)", panic_, msg)
+		default:
+			abort = fmt.Sprintf("%s(no%s, %q)", assert_, id, msg)
+		}
+		o.Site = siteWa(fmt.Sprintf("%s(%q); %s", println_, "before", abort))
+		o.Site.Terminal = true
+		o.Site.Prints = []string{"before"}
+		// the declared output is exactly what the function prints before it aborts
+		o.TailFn = func(u *mini.Unit) []string { return outputComment(s, native, "Output:", u.Out) }
 	case "trap-expected-panic":
 		o.Site = siteWa(fmt.Sprintf("%s(100 / (sel%s - 2))", println_, id))
 		o.Site.Terminal = true
@@ -359,6 +380,8 @@ func rootClass(kind string) string {
 	switch kind {
 	case "panic-unexpected", "trap-unexpected", "assert-fail", "assert-fail-msg":
 		return "unexpected-abort"
+	case "trap-after-matching-output", "panic-after-matching-output", "assert-fail-after-matching-output":
+		return "abort-after-matching-output"
 	case "output-wrong-line", "output-extra-line", "output-missing-line":
 		return "output-mismatch"
 	case "panic-expected-longer-message":
@@ -441,7 +464,7 @@ func clip(s string, n int) string {
 
 func TestVerdicts(t *testing.T) {
 	s := core.NewStats(prop, "Verdicts")
-	s.Rule("rapid: module directory (wa.mod with a drawn pkgpath, src/main.{wa,wz}, one test file named *_test or test_*) in the English or the Chinese syntax with 1..5 test/example functions (TestX / ExampleX / 测X功能 / X示例); every function body is a drawn nest of blocks/ifs/loops/switches/closures/helper calls/methods/defers with printing statements and one site that fixes its kind: silent pass, passing assert, `// Output:` (or 注: 输出:) matching the modelled output, wrong / extra / missing expected line, failing assert (with or without message), panic or trap without expectation, `// Output(panic):` with the same / a longer / another message, no panic at all, a trap instead, or a panic after some output; an optional -run glob selects a subset; oracle: the model computes from the kinds of the SELECTED functions whether all honour their contract: then `wa test` must print `ok <pkgpath>` and exit 0, otherwise it must print FAIL and exit non-zero; non-trivial = the selected functions mix passing and failing ones, or one of them declares an expected panic")
+	s.Rule("rapid: module directory (wa.mod with a drawn pkgpath, src/main.{wa,wz}, one test file named *_test or test_*) in the English or the Chinese syntax with 1..5 test/example functions (TestX / ExampleX / 测X功能 / X示例); every function body is a drawn nest of blocks/ifs/loops/switches/closures/helper calls/methods/defers with printing statements and one site that fixes its kind: silent pass, passing assert, `// Output:` (or 注: 输出:) matching the modelled output, wrong / extra / missing expected line, failing assert (with or without message), panic or trap without expectation, `// Output(panic):` with the same / a longer / another message, no panic at all, a trap instead, a panic after some output, or an `// Output:` that matches what is printed before the function traps / panics / fails an assert; an optional -run glob selects a subset; oracle: the model computes from the kinds of the SELECTED functions whether all honour their contract: then `wa test` must print `ok <pkgpath>` and exit 0, otherwise it must print FAIL and exit non-zero; non-trivial = the selected functions mix passing and failing ones, or one of them declares an expected panic")
 	s.Assume("a generated package that fails to compile is counted as rejected (generator defect), never as a violation; expected output is non-empty and has no leading/trailing blanks, so the runner's whitespace trimming is not exercised")
 	var rejected, unusable int64
 	s.Check(t, func(t *rapid.T, c *core.Case) {
